@@ -45,7 +45,7 @@ CLAIMED = {
             "verification-before-use order in the frame and stream entry points and every Result<_, VerifyError> in "
             "the encoder modules is an obligation decided on the MIR (dominating `?`-propagated checks). Hangs and "
             "numeric behaviour of in-range values are not decided.", "4/C17"),
-    "C09": ("GUARD: forward def-use tracking of candidate subframes with admission-idiom recognition and backward "
+    "C09": ("GUARD: the subframe chooser's result summarised as a case tree by the effect interpreter (Option/bool combinators, match, early returns all become cases); every leaf is verbatim, constant or a candidate whose path carries count_bits(candidate) < bound <= verbatim baseline; GUARD/stereo: control dependence of the selected assignment on `<` between sums of real count_bits (loop or argmin fold) with backward "
             "slices of the guard operands + the C08 EFFECT rules (the guards compare count_bits values, which are emitted sizes only if write == count_bits)",
             "Every non-verbatim candidate reaches the subframe chooser's result only through a `<` between its real "
             "BitRepr::count_bits and a bound derived from the verbatim baseline; the stereo assignment changes only "
